@@ -49,7 +49,7 @@ _counter = itertools.count()
 def make_module():
     mod = types.ModuleType(f"mc_c13_gen_{next(_counter)}")
     sys.modules[mod.__name__] = mod
-    exec(compile(RT.PRELUDE.replace("class E(", "class E(").replace("class N1(", "class N1("), "<c13-prelude>", "exec"), mod.__dict__)
+    exec(compile(RT.PRELUDE.replace("class E(", "class E(").replace("class N1(", "class N1("), "<c13-prelude>", "exec", dont_inherit=True), mod.__dict__)
     return mod
 
 
@@ -76,7 +76,7 @@ def accepted_terms(tier):
 def define(mod, ann_src, extra=""):
     cname = f"Y{next(_counter)}"
     src = f"@dataclass(frozen=True)\nclass {cname}(ASTNode):\n    f: {ann_src}\n{extra}"
-    exec(compile(src, f"<c13:{cname}>", "exec"), mod.__dict__)
+    exec(compile(src, f"<c13:{cname}>", "exec", dont_inherit=True), mod.__dict__)
     return mod.__dict__[cname]
 
 
@@ -196,7 +196,7 @@ def check_multi(rec, mod, g):
     n1 = g["N1"](1)
     for dflt, d_ok in (("False", True), ("0", False)):
         name = f"YM{next(_counter)}"
-        exec(compile(MULTI.format(name=name, dflt=dflt), f"<c13:{name}>", "exec"), mod.__dict__)
+        exec(compile(MULTI.format(name=name, dflt=dflt), f"<c13:{name}>", "exec", dont_inherit=True), mod.__dict__)
         cls = mod.__dict__[name]
         for (a, a_ok), (b, b_ok), (c, c_ok), (o, o_ok) in itertools.product(
                 [(1, True), (True, False)], [((n1,), True), ((1,), False)], [(None, True), (5, False)], [(NO_ORIGIN, True), ("x", False)]):
